@@ -89,12 +89,99 @@ def cases(tier, seed):
                 out.append({'k': 'hist', 'h': h, 'sys': st, 'thr': st, 'no_trace': nt, 'plugins': 1, 'fault': f})
     for nsh in range(8):
         out.append({'k': 'race', 'bound': bounds(tier)['race_preemptions'], 'shard': [nsh, 8]})
+    # start and shutdown called by different threads, each with trace functions of its own (sys.settrace is per thread)
+    for st, tt, ot, nt in itertools.product((0, 1), (0, 1), (0, 1), (0, 1)):
+        out.append({'k': 'threads', 'sys': st, 'thr': tt, 'other': ot, 'no_trace': nt})
     return out
+
+
+def threads_case(ctx, desc):
+    """Thread S (trace functions pre) starts the agent; thread X (own sys trace function) shuts it down. Afterwards X keeps its own function, the
+    threading hook is the old one, a thread started during the agent's life and S itself are rid of the agent's function as soon as they
+    next run traced code, and get back what they would have had without the agent."""
+    from deepproto.proto.tracepoint.v1.tracepoint_pb2 import SnapshotResponse
+    chan = rig.FakeChannel(send_handler=lambda r, m: SnapshotResponse())
+    pre = (fa if desc['sys'] else None, fb if desc['thr'] else None)
+    other = fc_ if desc['other'] else None
+    custom = {'NO_TRACE': True} if desc['no_trace'] else {}
+    ctx.case()
+    ctx.nt(('threads', desc['sys'], desc['thr'], desc['other'], desc['no_trace']))
+    saved = (sys.gettrace(), threading.gettrace())
+    obs = {}
+    go_shutdown, done_shutdown, worker_go, worker_done = threading.Event(), threading.Event(), threading.Event(), threading.Event()
+
+    def touch():
+        return 1
+
+    def starter(w):
+        sys.settrace(pre[0])
+        w.deep.start()
+        handler = w.deep.trigger_handler
+        obs['installed'] = getattr(sys.gettrace(), '__self__', None) is handler
+        # a thread started while the agent is live
+        t = threading.Thread(target=worker, name='host-live')
+        t.start()
+        obs['worker'] = t
+        go_shutdown.set()
+        done_shutdown.wait(20)
+        touch()                                  # the thread's next traced call
+        obs['starter_after'] = sys.gettrace()
+        worker_go.set()
+        worker_done.wait(20)
+        sys.settrace(None)
+
+    def worker():
+        worker_go.wait(20)
+        touch()
+        obs['worker_after'] = sys.gettrace()
+        worker_done.set()
+
+    def stopper(w):
+        sys.settrace(other)
+        go_shutdown.wait(20)
+        try:
+            w.deep.shutdown()
+        except BaseException as e:
+            obs['shutdown_exc'] = e
+        obs['stopper_after'] = sys.gettrace()
+        obs['threading_after'] = threading.gettrace()
+        sys.settrace(None)
+        done_shutdown.set()
+    try:
+        threading.settrace(pre[1])
+        with rig.DeepWorld(custom=custom, channel=chan) as w:
+            w._trace = saved
+            handler = w.deep.trigger_handler
+            a = threading.Thread(target=starter, args=(w,), name='host-starter')
+            b = threading.Thread(target=stopper, args=(w,), name='host-stopper')
+            a.start()       # (each sets the sys trace function it is to have as its first action)
+            b.start()
+            a.join(30)
+            b.join(30)
+    finally:
+        sys.settrace(saved[0])
+        threading.settrace(saved[1])
+    name = lambda f: getattr(f, '__name__', f) if getattr(f, '__self__', None) is None else 'agent'      # noqa: E731
+    label = f'start on a thread with sys={name(pre[0])}, threading hook {name(pre[1])}; shutdown on a thread with sys={name(other)}; NO_TRACE={bool(desc["no_trace"])}'
+    ctx.outcome(('threads', name(obs.get('starter_after')), name(obs.get('stopper_after'))))
+    if 'shutdown_exc' in obs:
+        ctx.violation('C14/threads/shutdown-raised', f'{label}: {obs["shutdown_exc"]!r}', desc)
+    elif obs.get('stopper_after') is not other:
+        ctx.violation('C14/threads/shutdown-replaces-the-callers-hook', f'{label}: after shutdown() its own thread has sys trace function {name(obs.get("stopper_after"))}', desc)
+    elif obs.get('threading_after') is not pre[1]:
+        ctx.violation('C14/threads/threading-hook-not-restored', f'{label}: threading trace function is {name(obs.get("threading_after"))}', desc)
+    elif obs.get('starter_after') is not pre[0]:
+        ctx.violation('C14/threads/starter-keeps-agent-hook', f'{label}: the starting thread, after its next traced call, has sys trace function {name(obs.get("starter_after"))}', desc)
+    elif not desc['no_trace'] and obs.get('worker_after') is not pre[1]:
+        ctx.violation('C14/threads/live-thread-keeps-agent-hook', f'{label}: a thread started while the agent was live has, after its next traced call, {name(obs.get("worker_after"))} '
+                      f'(without the agent it would have the threading hook {name(pre[1])})', desc)
 
 
 def run_case(ctx, desc):
     if desc['k'] == 'race':
         return race(ctx, desc)
+    if desc['k'] == 'threads':
+        return threads_case(ctx, desc)
     faults = [desc['fault']] if 'fault' in desc else FAULTS
     for f in faults:
         if f.endswith('_1') and desc['plugins'] < 2:
